@@ -71,7 +71,8 @@ NASTY_TYPES = [None, [], {}, True, [[]]]
 NASTY_ALL = NASTY_STRINGS + NASTY_NUMBERS + NASTY_TYPES
 NASTY_REDUCED = ["", "$A", "é", Raw("-1"), None, []]
 # path-like slots additionally get path-shaped values
-PATHY = ["..", "/", "rules/r1.yml", "nonexistent", ".", "tests/../rules"]
+# ("-" is what the directory walker takes for standard input; "/dev/null" is a character device)
+PATHY = ["..", "/", "rules/r1.yml", "nonexistent", ".", "tests/../rules", "-", "/dev/null"]
 
 
 def paths_of(v, cur=()):
